@@ -200,11 +200,11 @@ func c04Pref(c *Ctx) *RuleResult {
 	for _, cs := range CallsTo([]*FuncUnit{hl}, isPref) {
 		call := cs.Node.(*ast.CallExpr)
 		sel := ast.Unparen(call.Fun).(*ast.SelectorExpr)
-		okShape := exprStr(sel.X) == "h[i]" && len(call.Args) == 2 && exprStr(call.Args[0]) == "h[j]"
-		tie, isCall := ast.Unparen(call.Args[1]).(*ast.CallExpr)
+		okShape := inlinedStr(hl, sel.X) == "h[i]" && len(call.Args) == 2 && inlinedStr(hl, call.Args[0]) == "h[j]"
+		tie, isCall := ast.Unparen(resolveLocalAlias(hl, call.Args[1])).(*ast.CallExpr)
 		if isCall {
 			name, a, b, ok := isTimeCmp(hl.Info(), tie)
-			okShape = okShape && ok && name == "Before" && fieldOf(hl.Info(), a) == los && fieldOf(hl.Info(), b) == los && strings.HasPrefix(exprStr(a), "h[i]") && strings.HasPrefix(exprStr(b), "h[j]")
+			okShape = okShape && ok && name == "Before" && fieldOf(hl.Info(), a) == los && fieldOf(hl.Info(), b) == los && strings.HasPrefix(inlinedStr(hl, a), "h[i]") && strings.HasPrefix(inlinedStr(hl, b), "h[j]")
 		} else {
 			okShape = false
 		}
